@@ -187,7 +187,7 @@ package participle
 //@   before call reflect.ValueOf#1: assert token.Type != lexer.EOF ==> ctx.rawCursor == cursor + 1 [C10 C01]
 
 // !expr: the child runs on a branch that is never adopted; on success exactly one token is taken with Next.
-//@ func (*negation).Parse [C01 C02 C10 C06]
+//@ func (*negation).Parse [C01 C02 C10 C06 C08]
 //@   frame-tags C09
 //@   implements node.Parse
 //@   use wfNegation(n) at entry
@@ -332,6 +332,12 @@ package participle
 //@   before call (*participle.strct).maybeInjectTokens#1: assert tokens == ctx.tokens[start:ctx.rawCursor] && start == old(ctx.rawCursor) [C11]
 //@   before call (*participle.parseContext).Apply#1: assert from == len(old(ctx.apply)) [C02]
 //@   before call (*participle.parseContext).Apply#2: assert from == len(old(ctx.apply)) [C02]
+// The error handed up is the expression's own or the one applying the deferred captures produced (a failed
+// conversion), itself and not whatever error happens to be the deepest so far.
+//@   let ae error = result0 after call (*participle.parseContext).Apply#1
+//@   let ae2 error = result0 after call (*participle.parseContext).Apply#2
+//@   let pe error = result1 after call node.Parse#1
+//@   ensures @convErr err != nil ==> err == pe || err == ae || err == ae2 [C17]
 
 // memberFor: the union member type (T or *T) a parsed value belongs to.
 //@ func (*union).memberFor [C06 C01]
@@ -347,6 +353,7 @@ package participle
 //@   frame-tags C09
 //@   implements node.Parse
 //@   before call (*participle.disjunction).Parse#1: assert arg1 == ctx && arg2 == parent [C13 C01]
+//@   ensures @noRaw err != nil ==> len(out) == 0 [C06]
 //@   modifies family(reflect.Value)
 //@   use wfUnion(u) at entry
 //@   loop 1 invariant -1 <= rangeindex && rangeindex < len(vals)
@@ -375,6 +382,21 @@ package participle
 //@   modifies ctx.PeekingLexer, ctx.apply, ctx.deepestError, ctx.deepestErrorDepth, ctx.depth, ctx.firstMatch
 //@   ensures errOK(result) && pcInv(ctx) && ctx.tokens == old(ctx.tokens) && ctx.elide == old(ctx.elide)
 //@   ensures result == nil ==> ctx.allowTrailing || eofAt(&ctx.PeekingLexer, ctx.nextCursor) [C01]
+//@   let pe error = result0 after call (*participle.Parser[G]).parseInto#1
+//@   ensures @trailingOnly pe == nil && (ctx.allowTrailing || eofAt(&ctx.PeekingLexer, ctx.nextCursor)) ==> result == nil [C01 C10]
+
+// A root grammar that parses itself (Parseable): the same end-of-input rule as parseOne, decided on the next
+// token that is not elided.
+//@ func (*Parser[G]).rootParseable [C06 C01 C10 C15]
+//@   frame-tags C09
+//@   requires ctx != nil && pcInv(ctx) && errOK(ctx.deepestError) && parseable != nil
+//@   modifies ctx.Checkpoint, ctx.deepestError, ctx.deepestErrorDepth
+//@   ensures pcInv(ctx) && ctx.tokens == old(ctx.tokens) && ctx.elide == old(ctx.elide)
+//@   ensures errOK(result)
+//@   ensures result == nil ==> ctx.allowTrailing || eofAt(&ctx.PeekingLexer, ctx.nextCursor) [C01 C10]
+// ... and nothing but unread ordinary input makes a successful parse fail: elided tokens before the end do not.
+//@   let pe error = result0 after call Parseable.Parse#1
+//@   ensures @trailingOnly pe == nil && (ctx.allowTrailing || eofAt(&ctx.PeekingLexer, ctx.nextCursor)) ==> result == nil [C01 C10]
 
 // Build rejects Elide() names the lexer does not define (proved: Build's postcondition @elide, through the
 // mapping wrapper), so the panic below is unreachable for a built parser: the precondition is the Parser
@@ -484,7 +506,7 @@ package participle
 //@ func (*Parser[G]).Parse [C15 C06]
 //@   frame-tags C09
 //@   requires @assumed p.lex != nil && forall(k, 0, len(options), options[k] != nil)
-//@   before call Definition.Lex#1: assert (old(filename) != "" ==> arg1 == old(filename)) && arg2 == r [C15]
+//@   before call Definition.Lex#1: assert (old(filename) != "" ==> arg1 == old(filename)) && arg2 == r [C15 C06]
 //@   before call (*participle.Parser[G]).parse#1: assert arg1 == lex && arg2 == options [C15]
 
 // Parser.Lex returns exactly the tokens of the parser's own (mapped) definition on (filename, r).
@@ -740,6 +762,7 @@ package participle
 //@   requires @assumed slxOK(s)
 //@   modifies s.field, s.lexer, s.lexer.Checkpoint, elems(s.lexer.tokens)
 //@   ensures result0 != nil && (result1 == nil ==> slxOK(s))
+//@   ensures @eofLast result1 == nil && result0.Type == lexer.EOF ==> s.field + 1 >= len(s.indexes)
 
 //@ func (*structLexer).Field [C19]
 //@   requires @assumed s != nil && s.s != nil && len(s.indexes) > 0 && s.field >= 0
